@@ -521,12 +521,14 @@ func (c *Conn) Parse(data []byte) (retErr error) {
 								return
 							}
 						}
-						c.msgType = 0
-						c.compress = false
-						c.expectingFragments = false
-					} else {
-						c.expectingFragments = true
 					}
+				}
+				if fin {
+					c.msgType = 0
+					c.compress = false
+					c.expectingFragments = false
+				} else {
+					c.expectingFragments = true
 				}
 			case PingMessage, PongMessage, CloseMessage:
 				isProtocolMessage = true
@@ -1133,6 +1135,9 @@ func (c *Conn) validFrame(opcode MessageType, fin, res1, res2, res3, expectingFr
 	}
 	if expectingFragments && (opcode == TextMessage || opcode == BinaryMessage) {
 		return ErrFragmentsShouldNotHaveBinaryOrTextMessage
+	}
+	if !expectingFragments && opcode == FragmentMessage {
+		return ErrInvalidFragmentMessage
 	}
 	return nil
 }
